@@ -48,7 +48,7 @@ def _check_lazy(sid, time):
 def promise_violations(name):
     """C07 on the run just finished: m <= until; m == until for a simulator without trigger inputs; and a simulator stepped
     at t with max_advance m is not stepped in (t, m] unless by its own schedule (the test simulators schedule t + step)"""
-    sims, conns, groups = SCENARIOS[name]
+    sims, conns, groups = SCENARIOS[name][:3]
     out = []
     for r, seq in PROMISES.items():
         spec = sims[r]
@@ -117,6 +117,8 @@ def make_sim_class(trace, spec, yields):
             return nxt
 
         def get_data(self, outputs):
+            for _ in range(yields):
+                yield asyncio.sleep(0)          # (a generator: LocalProxy.send awaits what it yields -- get_data suspends as well)
             out = {}
             t = None
             for eid, attrs in outputs.items():
@@ -138,7 +140,7 @@ def reference_traces(name):
         data until there is one, else None); non-persistent output -> each value exactly once, at the first step at
         or after its delayed output time.
     Returns None for scenarios with groups (tiered time is not modelled by this reference)."""
-    sims, conns, groups = SCENARIOS[name]
+    sims, conns, groups = SCENARIOS[name][:3]
     if groups:
         return None
     roles = list(sims)
@@ -161,6 +163,8 @@ def reference_traces(name):
 
     state = {r: {"val": 0, "time": -1, "count": 0} for r in roles}
     demand = {r: ({0} if sims[r]["type"] != "event-based" else set()) for r in roles}
+    for r, t0 in (SCENARIOS[name][3] if len(SCENARIOS[name]) > 3 else {}).get("initial_events", {}).items():
+        demand[r] = {t0} if t0 < UNTIL else set()       # World.set_initial_event REPLACES the default first step
     produced = {r: [] for r in roles}            # [(output time, {attr: value})]
     pending_events = []                          # [due time, dest, dest attr, src full id, value]
     set_data = {}                                # addressee -> {(attr, sender full id): value} not yet delivered
@@ -173,7 +177,7 @@ def reference_traces(name):
             for s, d, sa, da, kw in conns:
                 if d != r:
                     continue
-                shift = 1 if kw.get("time_shifted") else 0
+                shift = int(kw.get("time_shifted") or 0)
                 if is_persistent(s, sa):
                     due = [(ot, vals[sa]) for ot, vals in produced[s] if sa in vals and ot + shift <= t]
                     if due:
@@ -200,7 +204,7 @@ def reference_traces(name):
             for s, d, sa, da, kw in conns:
                 if s != r or sa not in vals:
                     continue
-                due = ot + (1 if kw.get("time_shifted") else 0)
+                due = ot + int(kw.get("time_shifted") or 0)
                 if not is_persistent(r, sa):
                     pending_events.append([due, d, da, f"{r}-0.e0", vals[sa]])
                 if is_trigger(d, da) and due < UNTIL:
@@ -242,6 +246,10 @@ SCENARIOS = {
                    [("A", "B", "x", "in1", {}), ("H", "B", "ev", "in1", {})], []),
     "double_trigger": ({"A": {"type": "hybrid", "step": 1}, "E": {"type": "event-based"}},
                        [("A", "E", "ev", "in1", {}), ("A", "E", "ev", "in2", {"time_shifted": True})], []),
+    "shift2": ({"A": {"type": "hybrid", "step": 1}, "E": {"type": "event-based"}, "B": {"type": "time-based", "step": 1}},
+               [("A", "E", "ev", "in1", {"time_shifted": 2}), ("A", "B", "x", "in1", {"time_shifted": 2, "initial_data": {"x": 6}})], []),
+    "initial_event": ({"A": {"type": "time-based", "step": 2}, "E": {"type": "event-based"}, "B": {"type": "time-based", "step": 1}},
+                      [("A", "B", "x", "in1", {})], [], {"initial_events": {"A": 3, "E": 2}}),
     "slow_producer_shifted": ({"A": {"type": "time-based", "step": 5}, "B": {"type": "time-based", "step": 1}},
                               [("A", "B", "x", "in1", {"time_shifted": True, "initial_data": {"x": 0}})], []),
 }
@@ -253,7 +261,7 @@ def run_once(name, cfg, order, yields, prune=True):
     """-> {role: [(time, inputs json)]} or ('error', text)"""
     import mosaik
     from mosaik import scheduler
-    sims, conns, groups = SCENARIOS[name]
+    sims, conns, groups = SCENARIOS[name][:3]
     traces = {r: [] for r in sims}
     PROMISES.clear()
     sim_config = {}
@@ -286,6 +294,8 @@ def run_once(name, cfg, order, yields, prune=True):
                         ents[r] = world.start(r).M()
         for s, d, sa, da, kw in conns:
             world.connect(ents[s], ents[d], (sa, da), **kw)
+        for r, t0 in (SCENARIOS[name][3] if len(SCENARIOS[name]) > 3 else {}).get("initial_events", {}).items():
+            world.set_initial_event(ents[r].sid, t0)
         world.run(until=UNTIL, print_progress=False, lazy_stepping=cfg["lazy"])
         return traces
     except Exception as e:  # noqa: BLE001
